@@ -92,6 +92,9 @@ func randLabels(rng *rand.Rand) map[string]string {
 
 func randKey(rng *rand.Rand, nkeys int) (string, string) {
 	k := rng.Intn(nkeys)
+	if rng.Intn(10) == 0 {
+		return "", nameUniverse[(k/2)%2] // a cluster-scoped object: no namespace
+	}
 	return nsUniverse[k%2], nameUniverse[(k/2)%2]
 }
 
